@@ -24,6 +24,7 @@ fn run_line(line: &str) -> String {
         "CODE" => codes::run_code(args),
         "MATCH" => codes::run_match(args),
         "MATCHN" => codes::run_matchn(args),
+        "MATCHU" => codes::run_matchu(args),
         "RRMATCH" => codes::run_rrmatch(args),
         "HDR" => header::run_hdr(args),
         "PARSE" => pkt::run_parse(args),
